@@ -10,6 +10,14 @@
 //! The code point list holds the non-ASCII characters of the text for which `char::is_numeric` holds
 //! (second trusted primitive, a Unicode table). `exec` ignores both lists.
 //!
+//!   mgffile fid style h:text [table] [codepoints]  ->  file <reply> direct <reply>
+//!          the text is written to a per-run temporary file whose name ends in STYLES[style] (`.mgf`, `.MGF`,
+//!          `.mgf.gz`, `.MGF.GZ`, `.mgf.Gz`; gzip-compressed with flate2 where the name says so), read back through
+//!          `sage_cloudpath::util::read_spectra(path, fid, ..)` (path -> FileFormat by extension -> CloudPath::read
+//!          with the gzip-by-extension heuristic -> read_to_string -> MgfReader::parse) and deleted; `direct` is
+//!          MgfReader::parse on the same bytes. reply classes of the file part: ok … | err:utf8 (io error
+//!          InvalidData from read_to_string) | err:io | err:other | panic
+//!
 //!   spectrum := fid level h:id [p (u32 mz, opt u32 intensity, opt charge, window, sref?, opt u32 iim)…]
 //!               repr u32 rt u32 iit u32 tic [n u32 mz…] [n u32 intensity…] mobility?
 //!   window   := 0 | 1 da|ppm|pct u32 lo u32 hi
@@ -20,7 +28,7 @@ use sage_cloudpath::mgf::MgfReader;
 use sage_core::mass::Tolerance;
 use sage_core::spectrum::{RawSpectrum, Representation};
 
-pub const OPS: &[&str] = &["mgf", "mgfraw"];
+pub const OPS: &[&str] = &["mgf", "mgfraw", "mgffile"];
 pub const INFO: Info = Info {
     rule: "mgf: structured MGF documents (header CHARGE/TOL/TOLU present/absent/repeated, junk and comment \
            lines (# ; !), blank lines, 0-5 blocks with fields in random order, per-block CHARGE/TOL/TOLU \
@@ -32,7 +40,11 @@ pub const INFO: Info = Info {
            exhaustive line sequences over 12 line kinds (BEGIN, END, TITLE, PEPMASS, CHARGE, TOL, TOLU, peak, RT, peak with rejected intensity, rejected PEPMASS, CHARGE without digit) up to length 4 (quick) / 5 (thorough); \
            mgfraw: byte-level mutations of such documents (truncation at every kind of position, byte flips, \
            inserted bytes incl. NUL/0xFF/CR/Unicode digits, dropped/duplicated/swapped lines), empty and \
-           whitespace-only files, no BEGIN IONS, invalid UTF-8. non-trivial = document contains at least one \
+           whitespace-only files, no BEGIN IONS, invalid UTF-8. mgffile: structured, mutated and invalid-UTF-8 documents (and directed ones: empty file, single block, old-defect \
+           witnesses) written to a temp file under each of the five name styles .mgf .MGF .mgf.gz .MGF.GZ .mgf.Gz (all five \
+           are read correctly by the unchanged code: FileFormat lower-cases the path, the gzip heuristic lower-cases the \
+           extension), gzip-compressed where the name says so, read back through util::read_spectra with file ids 0..999 \
+           and compared with the direct parse. non-trivial = document contains at least one \
            BEGIN IONS and one END IONS line; distinct by request",
     serial: false,
 };
@@ -88,9 +100,7 @@ fn render_spectrum(o: &mut Out, s: &RawSpectrum) {
     o.b(s.mobility.is_some());
 }
 
-pub fn exec(_op: &str, t: &mut Toks) -> Option<String> {
-    let fid = t.usize()?;
-    let bytes = t.bytes()?;
+fn skip_tables(t: &mut Toks) -> Option<()> {
     // the two tables are for the model only
     let _ = t.list(|t| {
         let tok = t.bytes()?;
@@ -98,22 +108,75 @@ pub fn exec(_op: &str, t: &mut Toks) -> Option<String> {
         Some((tok, v))
     })?;
     let _ = t.list(|t| t.usize())?;
+    Some(())
+}
+
+fn render_ok(spectra: &[RawSpectrum]) -> String {
+    let mut o = Out::new();
+    o.raw("ok").n(spectra.len());
+    for s in spectra {
+        render_spectrum(&mut o, s);
+    }
+    o.finish()
+}
+
+fn direct(fid: usize, bytes: Vec<u8>) -> String {
     // sage reads the file with `read_to_string`: invalid UTF-8 is an I/O error before the reader runs
     let text = match String::from_utf8(bytes) {
         Ok(s) => s,
-        Err(_) => return Some("err:utf8".into()),
+        Err(_) => return "err:utf8".into(),
     };
     match MgfReader::with_file_id(fid).parse(text) {
-        Ok(spectra) => {
-            let mut o = Out::new();
-            o.raw("ok").n(spectra.len());
-            for s in &spectra {
-                render_spectrum(&mut o, s);
-            }
-            Some(o.finish())
-        }
-        Err(_) => Some("err".into()),
+        Ok(spectra) => render_ok(&spectra),
+        Err(_) => "err".into(),
     }
+}
+
+pub const STYLES: &[&str] = &[".mgf", ".MGF", ".mgf.gz", ".MGF.GZ", ".mgf.Gz"];
+static FILE_COUNTER: std::sync::atomic::AtomicUsize = std::sync::atomic::AtomicUsize::new(0);
+
+/// the route `sage` itself takes: path -> `read_spectra`
+fn file_route(fid: usize, style: usize, bytes: &[u8]) -> String {
+    use std::io::Write;
+    let ext = STYLES[style % STYLES.len()];
+    let k = FILE_COUNTER.fetch_add(1, std::sync::atomic::Ordering::Relaxed);
+    let path = std::env::temp_dir().join(format!("sage-verif-c17-{}-{}{}", std::process::id(), k, ext));
+    let payload: Vec<u8> = if ext.to_ascii_lowercase().ends_with(".gz") {
+        let mut enc = flate2::write::GzEncoder::new(Vec::new(), flate2::Compression::default());
+        enc.write_all(bytes).expect("gzip");
+        enc.finish().expect("gzip")
+    } else {
+        bytes.to_vec()
+    };
+    std::fs::write(&path, payload).expect("write temp file");
+    let p = path.to_str().expect("utf8 temp path").to_string();
+    let r = std::panic::catch_unwind(|| {
+        sage_cloudpath::util::read_spectra(p, fid, None, sage_cloudpath::tdf::BrukerProcessingConfig::default(), false)
+    });
+    let _ = std::fs::remove_file(&path);
+    match r {
+        Err(_) => "panic".into(),
+        Ok(Ok(spectra)) => render_ok(&spectra),
+        Ok(Err(sage_cloudpath::Error::IO(e))) if e.kind() == std::io::ErrorKind::InvalidData => "err:utf8".into(),
+        Ok(Err(sage_cloudpath::Error::IO(_))) => "err:io".into(),
+        Ok(Err(sage_cloudpath::Error::MGF(_))) => "err".into(),
+        Ok(Err(_)) => "err:other".into(),
+    }
+}
+
+pub fn exec(op: &str, t: &mut Toks) -> Option<String> {
+    let fid = t.usize()?;
+    if op == "mgffile" {
+        let style = t.usize()?;
+        let bytes = t.bytes()?;
+        skip_tables(t)?;
+        let f = file_route(fid, style, &bytes);
+        let d = direct(fid, bytes);
+        return Some(format!("file {f} direct {d}"));
+    }
+    let bytes = t.bytes()?;
+    skip_tables(t)?;
+    Some(direct(fid, bytes))
 }
 
 // ------------------------------------------------------------------------------------------- requests
@@ -144,8 +207,16 @@ fn token_table(text: &str) -> Vec<(String, Option<u32>)> {
 }
 
 fn request(op: &str, fid: usize, bytes: &[u8]) -> String {
+    request_styled(op, fid, None, bytes)
+}
+
+fn request_styled(op: &str, fid: usize, style: Option<usize>, bytes: &[u8]) -> String {
     let mut o = Out::new();
-    o.raw(op).n(fid).bytes(bytes);
+    o.raw(op).n(fid);
+    if let Some(st) = style {
+        o.n(st);
+    }
+    o.bytes(bytes);
     match std::str::from_utf8(bytes) {
         Ok(text) => {
             let tbl = token_table(text);
@@ -670,5 +741,33 @@ pub fn gen(rng: &mut Rng, tier: Tier, emit: &mut dyn FnMut(Case)) {
             tags.push("invalid-utf8");
         }
         emit_doc(emit, "mgfraw", 0, &v, &none, &tags);
+    }
+    // the file route
+    const STYLE_TAGS: &[&str] = &["file:.mgf", "file:.MGF", "file:.mgf.gz", "file:.MGF.GZ", "file:.mgf.Gz"];
+    let mut emit_file = |fid: usize, style: usize, bytes: &[u8], tags: &[&'static str]| {
+        let mut c = Case::new(request_styled("mgffile", fid, Some(style), bytes)).tag(STYLE_TAGS[style]);
+        for t in tags {
+            c = c.tag(t);
+        }
+        if std::str::from_utf8(bytes).is_err() {
+            c = c.tag("invalid-utf8");
+        }
+        emit(c.nontrivial(nontrivial_text(bytes)));
+    };
+    let two = "CHARGE=2+ and 3+\nTOL=10\nTOLU=ppm\nBEGIN IONS\nTITLE=a\nPEPMASS=500.5 7\nRTINSECONDS=60\n100.5 2\n200\nEND IONS\nBEGIN IONS\nTITLE=b\nCHARGE=4+\nPEPMASS=600\n100.5 2\nEND IONS\n";
+    for style in 0..STYLES.len() {
+        for (fid, text) in [(0usize, two), (7, two), (999, "BEGIN IONS\nTITLE=τ ٣\nPEPMASS=5\n1 1\nEND IONS"), (3, ""), (3, "TITLE=a\n"), (1, "\n\n")] {
+            emit_file(fid, style, text.as_bytes(), &["directed"]);
+        }
+        for bytes in [&b"\xff"[..], b"BEGIN IONS\nTITLE=\xe2\x82\nPEPMASS=5\n1 1\nEND IONS\n", b"BEGIN IONS\nTITLE=a\nPEPMASS=5\n1 1\nEND IONS\n\xd9", b"\xed\xa0\x80"] {
+            emit_file(5, style, bytes, &["directed"]);
+        }
+    }
+    let n_file = if quick { 600 } else { 12000 };
+    for k in 0..n_file {
+        let base = rng.pick(&pool).clone();
+        let (v, tag) = if rng.chance(30, 100) { mutate(rng, &base) } else { (base, "unmutated") };
+        let fid = if rng.chance(50, 100) { rng.below(1000) } else { 0 };
+        emit_file(fid, k % STYLES.len(), &v, &[tag]);
     }
 }
